@@ -507,6 +507,15 @@ def err(env, f, x):
 
 
 @ghost()
+def res_is_bytes(env, f):
+    """requires-clause of wrappers around the bytes loader: whenever it returns, it returns exact bytes"""
+    x = z3.Const("x!", T.Val)
+    ft = env.to_val(f)
+    return z3.ForAll([x], z3.Implies(T.F_ok(ft, x), T.F_cls(T.F_res(ft, x)) == env.interp.reg.cls(bytes)),
+                     patterns=[T.F_res(ft, x)])
+
+
+@ghost()
 def py_eq(env, a, b):
     return T.F_pyeq(env.to_val(a), env.to_val(b))
 
@@ -605,7 +614,8 @@ def py(env, argnodes):
     """py(lambda a, b: <native predicate>, x, y): evaluated natively per live cell on the shadows."""
     lam = argnodes[0]
     args = [env.ev(a) for a in argnodes[1:]]
-    fn = compile_native(lam, env.interp.globals)
+    consts = {k: v.d for k, v in env.extra.items() if isinstance(v, V) and v.kind == "const" and v.shadow is None}
+    fn = compile_native(lam, env.interp.globals, consts)
     vs = [a if isinstance(a, V) else const(a) for a in args]
     interp = env.interp
     root = interp.common_root(vs)
@@ -629,16 +639,16 @@ def py(env, argnodes):
 _native_cache = {}
 
 
-def compile_native(lam_node, module_globals):
+def compile_native(lam_node, module_globals, consts=None):
     key = ast.dump(lam_node)
-    fn = _native_cache.get(key)
-    if fn is None:
-        from .concrete import concrete_env
-        g = dict(module_globals)
-        g.update(concrete_env())
-        code = compile(ast.Expression(body=lam_node), "<spec>", "eval")
-        fn = _native_cache[key] = eval(code, g)  # noqa: S307
-    return fn
+    code = _native_cache.get(key)
+    if code is None:
+        code = _native_cache[key] = compile(ast.Expression(body=lam_node), "<spec>", "eval")
+    from .concrete import concrete_env
+    g = dict(module_globals)
+    g.update(consts or {})
+    g.update(concrete_env())
+    return eval(code, g)  # noqa: S307
 
 
 def _init_spec_consts():
